@@ -390,6 +390,8 @@ pub struct St {
     started: Vec<bool>,
     /// expiry callbacks requested and not yet fired, oldest first
     pending: Vec<Cb>,
+    /// per key the epoch the reassembler reported for its live buffer (None: no live buffer)
+    live_epoch: Vec<Option<u16>>,
 }
 
 #[derive(Clone, PartialEq)]
@@ -578,6 +580,10 @@ impl M {
                 cb.superseded = true;
             }
         }
+        n.live_epoch[key] = match &res {
+            ReceivePacketResult::Incomplete(_, _, e) => Some(*e),
+            ReceivePacketResult::Complete(..) => None,
+        };
         n.pieces[key].push(f);
         n.pieces[key].sort();
         let pieces = n.pieces[key].clone();
@@ -694,9 +700,11 @@ impl M {
         // control: the same deliveries without the callback (if these do not complete, the
         // callback is not to blame and the delivery oracle reports it on its own path)
         let control = if pre.is_empty() { false } else { probe(&n.real)? };
+        let live_epoch = n.live_epoch[cb.key];
         catch(|| n.real.maybe_cull_segment(id, epoch)).map_err(|p| Violation::panic(CULL, &p))?;
         if !cb.superseded {
             n.pieces[cb.key].clear();
+            n.live_epoch[cb.key] = None;
         }
         if pre.is_empty() || !control {
             return Ok(());
@@ -706,10 +714,13 @@ impl M {
         self.probes.insert(before);
         let should_remain = cb.superseded;
         if should_remain && !completed {
+            // the listed finding is the coincidence of epochs (a new buffer restarts at 0 and
+            // reaches the stale token's epoch); any other stale token must leave the buffer alone
+            let same_epoch = live_epoch == Some(epoch);
             return Err(Violation::new(
                 "expiry",
                 CULL,
-                "stale-expiry-culled-live-buffer",
+                if same_epoch { "stale-expiry-culled-live-buffer" } else { "stale-expiry-with-another-epoch-culled-live-buffer" },
                 format!(
                     "{}: callback {:?} was requested before the latest fragment of its key arrived; buffered [{}]; after it fired, delivering the missing [{}] does not complete the datagram",
                     dg.label,
@@ -822,6 +833,7 @@ impl Model for M {
             completed: vec![0; self.cfg.dgs.len()],
             started: vec![false; self.cfg.dgs.len()],
             pending: vec![],
+            live_epoch: vec![None; self.cfg.nkeys],
         }]
     }
 
